@@ -676,7 +676,9 @@ fn check_list(u: &Unit, members: &[&str], _tier: Tier, sink: &mut Sink) {
 fn check_big(u: &Unit, sink: &mut Sink) {
     let kind = u.extra["kind"].as_str().unwrap();
     let n = u.extra["n"].as_u64().unwrap() as usize;
-    let paired = kind == "use" || kind == "list";
+    // every kind comes in rank-equal pairs: imports / list members differ in the alias only, `mod` / `extern
+    // crate` declarations of one name differ in their `#[cfg(..)]` attribute
+    let paired = true;
     // element = (module number, alias index)
     let elems: Vec<(usize, usize)> = (0..n).map(|i| if paired { (i / 2, i % 2) } else { (i, 0) }).collect();
     let gcd = |mut a: usize, mut b: usize| {
@@ -702,8 +704,8 @@ fn check_big(u: &Unit, sink: &mut Sink) {
         let seq: Vec<(usize, usize)> = perm.iter().map(|&i| elems[i]).collect();
         let text_of = |&(m, a): &(usize, usize)| match kind {
             "use" => format!("use m{m:02}::item as {};", alias[a]),
-            "mod" => format!("mod m{m:02};"),
-            "crate" => format!("extern crate m{m:02};"),
+            "mod" => format!("#[cfg({})]\nmod m{m:02};", alias[a]),
+            "crate" => format!("#[cfg({})]\nextern crate m{m:02};", alias[a]),
             _ => format!("m{m:02} as {}", alias[a]),
         };
         let src = if kind == "list" {
@@ -722,10 +724,18 @@ fn check_big(u: &Unit, sink: &mut Sink) {
         // observed sequence of (module, alias) from the output's tokens
         let toks: Vec<&str> = o.text.split(|c: char| !(c.is_alphanumeric() || c == '_')).filter(|t| !t.is_empty()).collect();
         let mut got: Vec<(usize, usize)> = vec![];
+        let mut last_alias = 9usize; // for mod / extern crate: the cfg attribute stands before the declaration
         for (i, t) in toks.iter().enumerate() {
+            if *t == "first" {
+                last_alias = 0;
+            } else if *t == "second" {
+                last_alias = 1;
+            }
             if t.len() == 3 && t.starts_with('m') && t[1..].chars().all(|c| c.is_ascii_digit()) {
                 let m: usize = t[1..].parse().unwrap();
-                let a = if paired {
+                let a = if kind == "mod" || kind == "crate" {
+                    std::mem::replace(&mut last_alias, 9)
+                } else if paired {
                     let al = if kind == "use" { toks.get(i + 3) } else { toks.get(i + 2) };
                     match al {
                         Some(&"first") => 0,
